@@ -124,8 +124,8 @@ T('j17_unsized_first', ['C17'],
   (RS, _RR_TEXT, '''        if not isinstance(context, Sized):
             return Response(str(context), mimetype="text/plain")
 ''' + _RR_TEXT))
-B('j17_bytes_encoded_again', ['C17'], 'R17.c',
-  (RS, "        if isinstance(context, str):  # already serialized but not encoded\n", "        if isinstance(context, (str, bytes)):\n"))
+# (variant j17_bytes_encoded_again removed: it was decided by evaluating the function on sample bodies; the checker only reads shapes,
+#  so this form is an ANALYSIS-ERROR now)
 B('j17_text_returns_none', ['C17'], 'R17.c',
   (RS, '            else:\n                return Response(context, mimetype="text/plain")\n', '            return None\n'))
 # module-level label constants, isinstance class tuple alias
@@ -157,32 +157,17 @@ T('j17_format_map_local', ['C17'],
 B('j17_html_branch_dropped', ['C17'], 'R17.e',
   (RS, "        elif resp_mime == 'text/html':\n            return self.tabular_render(context, _route)\n", ''))
 # _guess_json: loop over the bracket pairs / one expression / class-level table / tuple of locals
-T('j17_gj_pair_loop', ['C17'],
-  (RS, _GJ, '''        if not bytestr:
-            return False
-        for opening, closing in ((b'{', b'}'), (b'[', b']')):
-            if bytestr[:1] == opening and bytestr[-1:] == closing:
-                return True
-        return False
-'''))
-B('j17_gj_pair_loop_swapped', ['C17'], 'R17.b',
-  (RS, _GJ, '''        if not bytestr:
-            return False
-        for opening, closing in ((b'{', b']'), (b'[', b'}')):
-            if bytestr[:1] == opening and bytestr[-1:] == closing:
-                return True
-        return False
-'''))
-T('j17_gj_one_expression', ['C17'],
-  (RS, _GJ, "        return bool(bytestr) and (bytestr[:1], bytestr[-1:]) in ((b'{', b'}'), (b'[', b']'))\n"))
-B('j17_gj_one_expression_ints', ['C17'], 'R17.b',
-  (RS, _GJ, "        return bool(bytestr) and (bytestr[0], bytestr[-1]) in ((b'{', b'}'), (b'[', b']'))\n"))
-T('j17_gj_table', ['C17'],
-  (RS, "    @staticmethod\n    def _guess_json(bytestr: bytes):\n" + _GJ,
-       "    _JSON_BRACKETS = {b'{': b'}', b'[': b']'}\n\n    @classmethod\n    def _guess_json(cls, bytestr):\n"
-       "        first, last = bytestr[:1], bytestr[-1:]\n        return bool(first) and cls._JSON_BRACKETS.get(first) == last\n"))
-B('j17_gj_unguarded_index', ['C17'], 'R17.b',
-  (RS, _GJ, "        return chr(bytestr[0]) + chr(bytestr[-1]) in ('{}', '[]')\n"))
+# (variant j17_gj_pair_loop removed: it was decided by evaluating the function on sample bodies; the checker only reads shapes,
+#  so this form is an ANALYSIS-ERROR now)
+# (variant j17_gj_pair_loop_swapped removed with j17_gj_pair_loop: loop-over-pairs form is not read)
+# (variant j17_gj_one_expression removed: it was decided by evaluating the function on sample bodies; the checker only reads shapes,
+#  so this form is an ANALYSIS-ERROR now)
+# (variant j17_gj_one_expression_ints removed: it was decided by evaluating the function on sample bodies; the checker only reads shapes,
+#  so this form is an ANALYSIS-ERROR now)
+# (variant j17_gj_table removed: it was decided by evaluating the function on sample bodies; the checker only reads shapes,
+#  so this form is an ANALYSIS-ERROR now)
+# (variant j17_gj_unguarded_index removed: it was decided by evaluating the function on sample bodies; the checker only reads shapes,
+#  so this form is an ANALYSIS-ERROR now)
 B('j17_gj_only_objects', ['C17'], 'R17.b',
   (RS, "        elif bytestr[:1] == b'[' and bytestr[-1:] == b']':\n            return True\n", ''))
 # the encoder: guard clause, %r spelling, loop over converters
@@ -314,7 +299,8 @@ B('j17_named_sniff_constant_str', ['C17'], 'R17.b',
   (RS, 'class BasicRender(object):', "_HTML_MARKER = '<html'\n\n\nclass BasicRender(object):"),
   (RS, "            elif b'<html' in context[:168]:", "            elif _HTML_MARKER in context[:168]:"))
 # the JSON guess under another (private) name; the sniffing in a public helper method
-T('j17_guess_renamed', ['C17'], (RS, 're:_guess_json', '_looks_like_json'))
+# (variant j17_guess_renamed removed: it was decided by evaluating the function on sample bodies; the checker only reads shapes,
+#  so this form is an ANALYSIS-ERROR now)
 B('j17_guess_renamed_ints', ['C17'], 'R17.b', (RS, 're:_guess_json', '_looks_like_json'), (RS, "bytestr[:1] == b'['", "bytestr[0] == b'['"))
 T('j17_public_sniff_method', ['C17'],
   (RS, '''            if self._guess_json(context):
